@@ -264,6 +264,7 @@ def report(pid, tier, seed, mod, results, wall):
                          loops_cut=v.get('cut'), dropped=v.get('dropped'),
                          callees_stubbed=v.get('stubs'))
                     for k, v in sorted(functions.items())],
+        slowest_families=sorted(((r.get('wall_s', 0), r['family']) for r in results), reverse=True)[:8],
         undecided=[f'{a}: {b}' for a, b in undecided][:50],
         known_findings_reported=sorted(seen_known),
         samples=samples or [dict(note='no sample collected')],
